@@ -30,7 +30,10 @@ Definition envs : list state :=
     mk_env 1048576 1048576 F1 big true;
     mk_env (-2147483648) 2147483647 (Fmake true 0 0) (Fmake false 1 (-1)) false;
     mk_env 2147483647 1 big big true;
-    mk_env 3 0 (Fmake false 3 0) F0 true ].
+    mk_env 3 0 (Fmake false 3 0) F0 true;
+    (* values on which inexact literal products / sums round differently when re-associated: 5, 7, 2.5, 10 *)
+    mk_env 2 5 (Fmake false 5 0) (Fmake false 7 0) true;
+    mk_env 7 3 (Fmake false 5 (-1)) (Fmake false 5 1) false ].
 
 (** classify one (original, optimised) pair on one state *)
 Definition run_pair (fuel : nat) (s s' : stmt) (st : state) : cmp_result :=
